@@ -98,6 +98,8 @@ class MergeSuite(Suite):
         ident = list(range(len(EV_COLS)))
         p0 = case["ev_files"][0].get("perm") or ident
         names0 = ["Scan number" if (c == "MS/MS scan number" and case["ev_files"][0].get("msms_layout")) else c for c in EV_COLS]
+        if case["ev_files"][0].get("labeling"):
+            names0[-1] = "Labeling state"
         exp = [[_case(names0[k], case["ev_files"][0]["header_case"]) for k in p0]]
         where = []           # per expected data row: positions of score and PEP in that row's own layout
         for f in case["ev_files"]:
